@@ -90,8 +90,8 @@ func NewEngine(pr *Program, cfg Config) *Engine {
 		cfg.MaxPaths = 1000000
 	}
 	e := &Engine{prog: pr.Prog, cfg: cfg,
-		covers: map[string]map[string]bool{}, asserts: map[string]map[string]int{},
-		funcs: map[string]int{}, stubsUsed: map[string]bool{}, pkgByPath: map[string]*ssa.Package{},
+		covers: map[string]map[string]bool{}, asserts: map[string]map[string]int{}, obligs: map[string]int{}, modelN: map[string]int{},
+		funcs: map[string]int{}, stubsUsed: map[string]map[string]bool{}, pkgByPath: map[string]*ssa.Package{},
 		sharedGlobals: map[*ssa.Global]*Value{}, sharedDone: map[*ssa.Package]bool{},
 	}
 	for _, pk := range pr.Prog.AllPackages() {
@@ -184,152 +184,208 @@ type HarnessResult struct {
 	Truncated   bool
 }
 
+type hrun struct {
+	fn          *ssa.Function
+	hr          *HarnessResult
+	outstanding int // queued + active items
+	t0          time.Time
+	deadline    time.Time
+	started     bool
+	stopped     bool
+	problemSeen map[string]bool
+	done        chan struct{}
+}
+
+type job struct {
+	h      *hrun
+	prefix []Decision
+}
+
 type workQueue struct {
 	mu      sync.Mutex
 	cond    *sync.Cond
-	items   [][]Decision
-	active  int
-	stopped bool
-}
-
-func (q *workQueue) push(it []Decision) {
-	q.mu.Lock()
-	q.items = append(q.items, it)
-	q.mu.Unlock()
-	q.cond.Signal()
-}
-
-func (q *workQueue) pop() ([]Decision, bool) {
-	q.mu.Lock()
-	defer q.mu.Unlock()
-	for {
-		if q.stopped {
-			return nil, false
-		}
-		if n := len(q.items); n > 0 {
-			it := q.items[n-1]
-			q.items = q.items[:n-1]
-			q.active++
-			return it, true
-		}
-		if q.active == 0 {
-			q.cond.Broadcast()
-			return nil, false
-		}
-		q.cond.Wait()
-	}
-}
-
-func (q *workQueue) done() {
-	q.mu.Lock()
-	q.active--
-	if q.active == 0 && len(q.items) == 0 {
-		q.cond.Broadcast()
-	}
-	q.mu.Unlock()
-}
-
-func (q *workQueue) stop() {
-	q.mu.Lock()
-	q.stopped = true
-	q.mu.Unlock()
-	q.cond.Broadcast()
+	items   []job
+	waiting []*hrun // harnesses not yet started
+	running int     // harnesses started and not finished
+	maxRun  int
+	closed  bool
 }
 
 // RunHarness explores all paths of the function fn (no arguments).
 func (e *Engine) RunHarness(fn *ssa.Function) *HarnessResult {
-	t0 := time.Now()
-	hr := &HarnessResult{Name: fn.Name(), Outcomes: map[string]int{}, Funcs: map[string]int{}}
-	q := &workQueue{}
+	return e.RunHarnesses([]*ssa.Function{fn}, nil)[0]
+}
+
+// RunHarnesses explores several harnesses with one shared pool of workers (each owning one solver process).
+// onDone (optional) is called as each harness completes.
+func (e *Engine) RunHarnesses(fns []*ssa.Function, onDone func(*HarnessResult)) []*HarnessResult {
+	q := &workQueue{maxRun: e.cfg.Workers}
 	q.cond = sync.NewCond(&q.mu)
-	q.items = [][]Decision{nil}
-	var rmu sync.Mutex
-	var wg sync.WaitGroup
-	deadline := time.Time{}
-	if e.cfg.Wall > 0 {
-		deadline = t0.Add(e.cfg.Wall)
+	var runs []*hrun
+	for _, fn := range fns {
+		h := &hrun{fn: fn, hr: &HarnessResult{Name: fn.Name(), Outcomes: map[string]int{}, Funcs: map[string]int{}}, problemSeen: map[string]bool{}, done: make(chan struct{})}
+		runs = append(runs, h)
+		q.waiting = append(q.waiting, h)
 	}
-	problemSeen := map[string]bool{}
+	var wg sync.WaitGroup
+	finish := func(h *hrun) { // q.mu held
+		h.hr.Wall = time.Since(h.t0)
+		q.running--
+		e.mu.Lock()
+		h.hr.Covers = e.covers[h.fn.Name()]
+		h.hr.Asserts = e.asserts[h.fn.Name()]
+		h.hr.Obligations = e.obligs[h.fn.Name()]
+		for s := range e.stubsUsed[h.fn.Name()] {
+			h.hr.Stubs = append(h.hr.Stubs, s)
+		}
+		sort.Strings(h.hr.Stubs)
+		e.mu.Unlock()
+		close(h.done)
+		q.cond.Broadcast()
+	}
+	pop := func() (job, bool) {
+		q.mu.Lock()
+		defer q.mu.Unlock()
+		for {
+			if n := len(q.items); n > 0 {
+				it := q.items[n-1]
+				q.items = q.items[:n-1]
+				return it, true
+			}
+			if len(q.waiting) > 0 && q.running < q.maxRun {
+				h := q.waiting[0]
+				q.waiting = q.waiting[1:]
+				h.started, h.t0 = true, time.Now()
+				if e.cfg.Wall > 0 {
+					h.deadline = h.t0.Add(e.cfg.Wall)
+				}
+				h.outstanding = 1
+				q.running++
+				return job{h, nil}, true
+			}
+			if len(q.waiting) == 0 && q.running == 0 {
+				q.cond.Broadcast()
+				return job{}, false
+			}
+			q.cond.Wait()
+		}
+	}
 	for w := 0; w < e.cfg.Workers; w++ {
 		wg.Add(1)
 		go func() {
 			defer wg.Done()
-			sol, err := NewSolver(e.cfg.SolverKind, e.cfg.FeasMs)
-			if err != nil {
-				rmu.Lock()
-				hr.Problems = append(hr.Problems, "solver start: "+err.Error())
-				rmu.Unlock()
-				q.stop()
-				return
-			}
-			defer sol.Close()
+			var sol *Solver
+			defer func() {
+				if sol != nil {
+					sol.Close()
+				}
+			}()
 			for {
-				prefix, ok := q.pop()
+				jb, ok := pop()
 				if !ok {
 					return
 				}
-				res, pending, funcs := e.runPath(fn, prefix, sol, deadline)
-				for _, alt := range pending {
-					q.push(alt)
-				}
-				rmu.Lock()
-				hr.Paths++
-				hr.Outcomes[res.Outcome]++
-				hr.Decisions += res.Decisions
-				hr.Forks += res.Forks
-				hr.Steps += res.Steps
-				hr.Violations = append(hr.Violations, res.Violations...)
-				hr.Unknowns = append(hr.Unknowns, res.Unknowns...)
-				for f, n := range funcs {
-					hr.Funcs[f.String()] = n
-				}
-				switch res.Outcome {
-				case "unwind", "unsupported", "engine-error":
-					key := res.Outcome + ": " + res.Msg
-					if !problemSeen[key] {
-						problemSeen[key] = true
-						if len(hr.Problems) < 50 {
-							hr.Problems = append(hr.Problems, key)
+				h := jb.h
+				if sol == nil {
+					var err error
+					sol, err = NewSolver(e.cfg.SolverKind, e.cfg.FeasMs)
+					if err != nil {
+						q.mu.Lock()
+						h.hr.Problems = append(h.hr.Problems, "solver start: "+err.Error())
+						h.outstanding--
+						if h.outstanding == 0 {
+							finish(h)
 						}
+						q.mu.Unlock()
+						sol = nil
+						continue
 					}
 				}
-				if res.Model != nil && len(hr.Models) < 4096 {
-					hr.Models = append(hr.Models, res.Model)
-					hr.ModelEvents = append(hr.ModelEvents, res.Events)
-					hr.ModelObs = append(hr.ModelObs, res.Observed)
+				q.mu.Lock()
+				skip := h.stopped
+				q.mu.Unlock()
+				var res *PathResult
+				var pending [][]Decision
+				var funcs map[*ssa.Function]int
+				if !skip {
+					res, pending, funcs = e.runPath(h.fn, jb.prefix, sol, h.deadline, h)
+					if sol.Errors > 0 && sol.broken {
+						sol.Close()
+						sol = nil
+					}
 				}
-				stop := hr.Paths >= e.cfg.MaxPaths || (e.cfg.StopOnViol && len(hr.Violations) > 0) ||
-					(!deadline.IsZero() && time.Now().After(deadline))
-				rmu.Unlock()
-				q.done()
-				if stop {
-					rmu.Lock()
+				q.mu.Lock()
+				hr := h.hr
+				if skip {
 					hr.Truncated = true
-					rmu.Unlock()
-					q.stop()
-					return
+					h.problem("exploration truncated (path/wall budget): unexplored prefixes remain")
+				} else {
+					if !h.stopped {
+						for _, alt := range pending {
+							q.items = append(q.items, job{h, alt})
+							h.outstanding++
+						}
+						if len(pending) > 0 {
+							q.cond.Broadcast()
+						}
+					} else if len(pending) > 0 {
+						hr.Truncated = true
+						h.problem("exploration truncated (path/wall budget): unexplored prefixes remain")
+					}
+					hr.Paths++
+					hr.Outcomes[res.Outcome]++
+					hr.Decisions += res.Decisions
+					hr.Forks += res.Forks
+					hr.Steps += res.Steps
+					hr.Queries += res.Queries
+					hr.SolverTime += res.SolverTime
+					hr.Violations = append(hr.Violations, res.Violations...)
+					hr.Unknowns = append(hr.Unknowns, res.Unknowns...)
+					for f, n := range funcs {
+						hr.Funcs[f.String()] = n
+					}
+					switch res.Outcome {
+					case "unwind", "unsupported", "engine-error":
+						h.problem(res.Outcome + ": " + res.Msg)
+					}
+					if res.Model != nil && len(hr.Models) < 4096 {
+						hr.Models = append(hr.Models, res.Model)
+						hr.ModelEvents = append(hr.ModelEvents, res.Events)
+						hr.ModelObs = append(hr.ModelObs, res.Observed)
+					}
+					if hr.Paths >= e.cfg.MaxPaths || (e.cfg.StopOnViol && len(hr.Violations) > 0) ||
+						(!h.deadline.IsZero() && time.Now().After(h.deadline)) {
+						h.stopped = true
+					}
+				}
+				h.outstanding--
+				if h.outstanding == 0 {
+					finish(h)
+					q.mu.Unlock()
+					if onDone != nil {
+						onDone(hr)
+					}
+				} else {
+					q.mu.Unlock()
 				}
 			}
 		}()
 	}
 	wg.Wait()
-	q.mu.Lock()
-	if len(q.items) > 0 {
-		hr.Truncated = true
-		hr.Problems = append(hr.Problems, fmt.Sprintf("exploration truncated with %d unexplored prefixes (path/wall budget)", len(q.items)))
+	var out []*HarnessResult
+	for _, h := range runs {
+		out = append(out, h.hr)
 	}
-	q.mu.Unlock()
-	e.mu.Lock()
-	hr.Covers = e.covers[fn.Name()]
-	hr.Asserts = e.asserts[fn.Name()]
-	hr.Obligations = e.obligs
-	for s := range e.stubsUsed {
-		hr.Stubs = append(hr.Stubs, s)
+	return out
+}
+
+func (h *hrun) problem(key string) {
+	if !h.problemSeen[key] {
+		h.problemSeen[key] = true
+		if len(h.hr.Problems) < 50 {
+			h.hr.Problems = append(h.hr.Problems, key)
+		}
 	}
-	sort.Strings(hr.Stubs)
-	e.mu.Unlock()
-	hr.Wall = time.Since(t0)
-	return hr
 }
 
 func (e *Engine) newPath(sol *Solver) *Path {
@@ -340,7 +396,7 @@ func (e *Engine) newPath(sol *Solver) *Path {
 	return p
 }
 
-func (e *Engine) runPath(fn *ssa.Function, prefix []Decision, sol *Solver, deadline time.Time) (res *PathResult, pending [][]Decision, funcs map[*ssa.Function]int) {
+func (e *Engine) runPath(fn *ssa.Function, prefix []Decision, sol *Solver, deadline time.Time, h *hrun) (res *PathResult, pending [][]Decision, funcs map[*ssa.Function]int) {
 	p := e.newPath(sol)
 	p.prefix = prefix
 	p.harness = fn.Name()
@@ -372,7 +428,7 @@ func (e *Engine) runPath(fn *ssa.Function, prefix []Decision, sol *Solver, deadl
 		p.call(nil, token.NoPos, fn, nil)
 		p.finishSched()
 		p.res.Outcome = "return"
-		if e.cfg.ModelPerPath && len(p.res.Violations) == 0 {
+		if e.cfg.ModelPerPath && len(p.res.Violations) == 0 && e.wantModel(fn.Name()) {
 			iv, m := p.smallModel(nil)
 			if iv != nil {
 				trunc := false
